@@ -157,6 +157,10 @@ def specClass (cfg : Nat → Cfg) (b : Nat) (o : Obs) : Option String :=
   else if !Spec.budgetRespected cfg b o.hist then some "budget-exceeded"
   else if !Spec.permanentRetried cfg o then some "permanent-not-retried-once"
   else if !Spec.singleInstance cfg o.hist then some "two-instances-one-address"
+  else if !Spec.restartRestarts cfg b o then
+    some (match o.op with
+      | .peerDisappeared _ => "peer-loss-does-not-restart"
+      | _ => "restart-does-not-restart")
   else none
 
 def lookupAdapter (ads : List AdapterSpec) (a : Nat) : AdapterSpec :=
